@@ -160,16 +160,17 @@ def main():
         for k in sorted(by):
             if by[k] and len(sample) < n:
                 sample.append(by[k].pop())
-    done = set()
+    done = set()   # keyed by content, not by line number: fix commits shift the lines of later mutants
     if os.path.exists(outfile):
         for ln in open(outfile):
-            done.add(json.loads(ln)['id'])
+            r = json.loads(ln)
+            done.add((r['file'], r['old'], r['op'], r['new']))
     workers = int(os.environ.get('MUT_WORKERS', '8'))
     for i, m in enumerate(sample):
         if i % nslots != slot:
             continue
         mid = '%s:%d:%s' % (os.path.basename(m['file']), m['line'], m['op'])
-        if mid in done:
+        if (m['file'], m['old'].strip(), m['op'], m['new'].strip()) in done:
             continue
         S = '/tmp/mut/s%d' % slot
         shutil.rmtree(S, ignore_errors=True)
